@@ -71,8 +71,13 @@ def check_pair(ctx, res, case, on, off):
         x0, x1, y0, y1 = min(xs), max(xs), min(ys), max(ys)
         w, h = max(x1 - x0, 1e-6), max(y1 - y0, 1e-6)
         pts = render.grid_points(x0, y0, w, h, 9, ctx.rng, margin=-0.05)
+        # every layer gets interior sample points of its own, however small it is
+        for lf in s2.leaves:
+            b = lf.path.bounds
+            for fx, fy in ((0.5, 0.5), (0.35, 0.4), (0.65, 0.4), (0.4, 0.65), (0.6, 0.6)):
+                pts.append(render.app(lf.ctm, (b[0] + fx * (b[2] - b[0]), b[1] + fy * (b[3] - b[1]))))
         tolu = max(cfg.reuse_tolerance, 0) * (cfg.ascender - cfg.descender) / 24.0
-        delta = 2.5 + 0.004 * cfg.upem + tolu
+        delta = case.get("delta") or (2.5 + 0.004 * cfg.upem + tolu)
         try:
             compared, skipped, bad = render.compare_scenes(s2, s1, lambda p: p, pts, delta, delta)
         except render.Unsupported as e:
@@ -101,8 +106,32 @@ def check_pair(ctx, res, case, on, off):
                 break
 
 
-def suite_pairs(ctx, res, n):
-    for case in fontgen.gen_cases(ctx.rng, n, formats=FORMATS):
+def suite_pairs(ctx, res, n, n_tiny=0):
+    cases = list(fontgen.gen_cases(ctx.rng, n, formats=FORMATS))
+    # targeted family: tiny copy of a large donor with a far, non-foldable radial gradient (OverflowError fallback branch)
+    cases += [fontgen.make_tiny_reuse_case(ctx.rng.getrandbits(32), fmt="glyf_colr_1") for i in range(n_tiny)]
+    cases += [fontgen.make_origin_anchored_case(ctx.rng.getrandbits(32), fmt=FORMATS[i % 3]) for i in range(n_tiny // 2)]
+    from nanoemoji import paint as npaint
+
+    orig_apply = npaint.PaintRadialGradient.apply_transform
+
+    def counting_apply(self, *a, **kw):
+        try:
+            return orig_apply(self, *a, **kw)
+        except OverflowError:
+            res.stat("reuse:overflow-fallback")  # the rarely taken branch of _migrate_paths_to_ufo_glyphs
+            raise
+
+    npaint.PaintRadialGradient.apply_transform = counting_apply
+    try:
+        _suite_pairs(ctx, res, cases)
+    finally:
+        npaint.PaintRadialGradient.apply_transform = orig_apply
+
+
+def _suite_pairs(ctx, res, cases):
+    case = None
+    for case in cases:
         off_case = dict(case, config=dict(case["config"], reuse_tolerance=-1))
         on = fontgen.build(case)
         off = fontgen.build(off_case, picosvgs=on.get("picosvgs"))
@@ -135,11 +164,11 @@ def run(ctx, res):
         res.count(key=("corpus", case["id"]), nontrivial=True)
         if "err" not in on and "err" not in off:
             check_pair(ctx, res, case, on, off)
-    suite_pairs(ctx, res, ctx.budget(36, 900))
+    suite_pairs(ctx, res, ctx.budget(36, 900), n_tiny=ctx.budget(16, 300))
 
 
 def search(ctx, res, broken):
-    suite_pairs(ctx, res, 200)
+    suite_pairs(ctx, res, 200, n_tiny=80)
 
 
 def replay(ctx, res, payload):
